@@ -19,6 +19,7 @@ THEOREMS = ["Nmfu.C06_step_is_machine_step", "Nmfu.C06_first_match_wins", "Nmfu.
 
 OPTSETS = [
     ("default", []),
+    ("collapsed-ranges", ["-fcollapse-transition-ranges", "--collapsed-range-length", "2"]),
     ("indirect+strict", ["-findirect-start-ptr", "-fstrict-done-token-generation"]),
     ("dynamic+u8", ["-fallocate-str-space-dynamic", "-fstrings-as-u8"]),
     ("O3+collapse1", ["-O3", "--collapsed-range-length", "1", "-findirect-start-ptr"]),
@@ -55,6 +56,18 @@ def split_segments(lines):
     return segs
 
 
+def decl_probs(prog, oargs):
+    """declared widths at -O0 (unreachable states are kept and numbered) and at -O1"""
+    import rtdiff
+    from nmfu_api import compile_program
+    out = []
+    for lvl in ("-O0", "-O1"):
+        o = compile_program(prog["src"], [lvl] + prog["args"] + oargs)
+        if o.ok:
+            out += [f"{lvl}: {p}" for p in rtdiff.decl_width_problems(o)]
+    return out
+
+
 def work(job):
     import rtdiff, inputs
     prog, optsets, seed, wd_root = job
@@ -71,6 +84,8 @@ def work(job):
                 res["status"] = case.why
                 break
             continue
+        for prob in decl_probs(prog, oargs):
+            res["diffs"].append({"kind": "declared-width", "opt": oname, "detail": prob})
         if case.known_spin():
             res["status"] = "excluded:spin-through-outofspace-redirect (the finding recorded under C04)"
             break
@@ -95,8 +110,7 @@ def work(job):
                 if case.eof():
                     ops += ["start"] + ctx + [f"force:{s}", "end"]
         # random walks
-        for _ in range(12):
-            data = inputs.random_walk(case.dfa, rng, rng.randint(1, 30))
+        for data in [inputs.random_walk(case.dfa, rng, rng.randint(1, 30)) for _ in range(12)] + inputs.extra(prog):
             ops += rtdiff.feed_ops(case, data)
             res["walks"] += 1
         clines, status, err = case.run_c(ops, timeout=60)
@@ -132,7 +146,7 @@ def main():
     ck = Check("C06", "proof")
     ck.lean_obligations("NmfuProps.C06", THEOREMS)
     n_gen = 40 if ck.tier == "quick" else 600
-    optsets = OPTSETS[:3] if ck.tier == "quick" else OPTSETS
+    optsets = OPTSETS[:4] if ck.tier == "quick" else OPTSETS
     progs = list(population.population(ck.seed, n_gen))
     wd = common.scratch_dir("c06")
     try:
